@@ -41,47 +41,44 @@ Definition has_class (a : anc) (cls : text) : bool :=
 Definition has_id (a : anc) (h : text) : bool :=
   existsb (fun kv => attr_is (fst kv) s_id && text_eqb (snd kv) h) (a_attrs a).
 
-Definition i32_ok (z : Z) : bool := ((-2147483648 <=? z) && (z <=? 2147483647))%Z.
-
-Definition nth_test (a b idx : Z) : res bool :=
+(* idx = a*n + b for some n >= 0, computed as the code does (64-bit arithmetic, Rust's
+   truncating % and /) *)
+Definition nth_test (a b idx : Z) : bool :=
   let off := (idx - b)%Z in
-  if negb (i32_ok off) then Panic 51 else
-  if (a =? 0)%Z then Ok (off =? 0)%Z else
-  if negb (Z.rem off a =? 0)%Z then Ok false else
-  Ok (0 <=? Z.quot off a)%Z.
+  if (a =? 0)%Z then (off =? 0)%Z else
+  if negb (Z.rem off a =? 0)%Z then false else
+  (0 <=? Z.quot off a)%Z.
 
-Fixpoint do_matches (cs : list comp) : list anc -> res bool :=
+Fixpoint do_matches (cs : list comp) : list anc -> bool :=
   match cs with
-  | [] => fun _ => Ok true
+  | [] => fun _ => true
   | c :: rest =>
     let mrest := do_matches rest in
     match c with
     | CClass cls => fun p =>
-      match p with [] => Ok false | a :: _ => if has_class a cls then mrest p else Ok false end
+      match p with [] => false | a :: _ => has_class a cls && mrest p end
     | CHash h => fun p =>
-      match p with [] => Ok false | a :: _ => if has_id a h then mrest p else Ok false end
+      match p with [] => false | a :: _ => has_id a h && mrest p end
     | CElement n => fun p =>
-      match p with [] => Ok false | a :: _ => if text_eqb (a_name a) n then mrest p else Ok false end
-    | CStar => mrest
+      match p with [] => false | a :: _ => text_eqb (a_name a) n && mrest p end
+    | CStar => fun p => match p with [] => false | _ :: _ => mrest p end
     | CCombChild => fun p =>
-      match p with [] => Ok false | _ :: p' => mrest p' end
+      match p with [] => false | _ :: p' => mrest p' end
     | CCombDescendant =>
-      fix desc (p : list anc) : res bool :=
+      fix desc (p : list anc) : bool :=
         match p with
-        | [] => Ok false
-        | _ :: p' => do r <- mrest p'; if r then Ok true else desc p'
+        | [] => false
+        | _ :: p' => mrest p' || desc p'
         end
     | CNthChild a b => fun p =>
       match p with
-      | [] => Ok false
-      | e :: _ =>
-        do r <- nth_test a b (a_idx e);
-        if r then mrest p else Ok false
+      | [] => false
+      | e :: _ => nth_test a b (a_idx e) && mrest p
       end
     end
   end.
 
-Definition sel_matches (s : selector) (p : list anc) : res bool := do_matches (comps s) p.
+Definition sel_matches (s : selector) (p : list anc) : bool := do_matches (comps s) p.
 
 (* ---------- specificity and the cascade cell ---------- *)
 Record spec := mkspec { sp_inline : bool; sp_id : N; sp_class : N; sp_typ : N }.
@@ -205,13 +202,12 @@ Definition merge_computed_style (cs : cstyle) (important : bool) (o : origin) (s
     mkcs (cs_core cs) (cs_before cs) (Some (merge_core c important o sp st)) (cs_internal_pre cs)
   end.
 
-Fixpoint apply_rules (o : origin) (rules : list ruleset) (p : list anc) (cs : cstyle) : res cstyle :=
+Fixpoint apply_rules (o : origin) (rules : list ruleset) (p : list anc) (cs : cstyle) : cstyle :=
   match rules with
-  | [] => Ok cs
+  | [] => cs
   | r :: rules' =>
-    do m <- sel_matches (rs_sel r) p;
     let cs' :=
-        if m then
+        if sel_matches (rs_sel r) p then
           fold_left (fun acc sd =>
                        merge_computed_style acc (sd_important sd) o (specificity (rs_sel r))
                                             (pseudo_el (rs_sel r)) (sd_style sd))
@@ -222,10 +218,10 @@ Fixpoint apply_rules (o : origin) (rules : list ruleset) (p : list anc) (cs : cs
 
 (* the inline declarations of an element (style / color / bgcolor attributes, in
    attribute order), already parsed: supplied by CssParse *)
-Definition computed_style (sd : styledata) (p : list anc) (inline : list styledecl) : res cstyle :=
-  do c1 <- apply_rules OAgent (agent_rules sd) p cstyle0;
-  do c2 <- apply_rules OUser (user_rules sd) p c1;
-  do c3 <- apply_rules OAuthor (author_rules sd) p c2;
-  Ok (fold_left (fun acc st => merge_computed_style acc (sd_important st) OAuthor spec_inline None
-                                                     (sd_style st))
-                inline c3).
+Definition computed_style (sd : styledata) (p : list anc) (inline : list styledecl) : cstyle :=
+  let c1 := apply_rules OAgent (agent_rules sd) p cstyle0 in
+  let c2 := apply_rules OUser (user_rules sd) p c1 in
+  let c3 := apply_rules OAuthor (author_rules sd) p c2 in
+  fold_left (fun acc st => merge_computed_style acc (sd_important st) OAuthor spec_inline None
+                                                (sd_style st))
+            inline c3.
